@@ -144,6 +144,8 @@ func TestC09(t *testing.T) {
 		{Kind: "permuted", Packed: true, Unknown: 2},
 		{Kind: "ordered", NonMinimal: true},
 		{Kind: "permuted", Packed: true, NonMinimal: true, Unknown: 1, UnknownInT: true},
+		{Kind: "permuted", Packed: true, EmptyRun: true},
+		{Kind: "ordered", Packed: true, EmptyRun: true, NonMinimal: true},
 	}
 	nvi := r.Pick(6, len(c09Vals)*4)
 	perms := r.Pick(2, 12)
